@@ -7,7 +7,10 @@ RULE = ("one case = (ellipsoid, end points) for Inverse or (ellipsoid, start, az
         "crossing / touching, unreduced longitudes; direct regimes: cardinal / near-cardinal (+-ulps, +-1e-15..1e-5) / multi-turn azimuths, "
         "distances 0, 1e-9 m.., to the pole +-ulps, up to 3 quarter meridians beyond it, either sign, from poles / near poles / equator; "
         "plus a directed catalogue of 29568 combinations of singular values. Every result is compared with the float128 quadrature "
-        "reference; distinct = distinct hash of (class, all inputs); oracle self-test cases are counted as trivial")
+        "reference; each inverse/direct/line call is made with ALL outputs, again with a random non-empty subset of the output mask "
+        "(sentinel-prefilled outputs, every requested output judged with the same tolerances, keys .../masked) and through the convenience "
+        "overloads Direct / Position with and without S12 (keys .../overload) and Inverse without S12; "
+        "distinct = distinct hash of (class, all inputs); oracle self-test cases are counted as trivial")
 ASSUMPTIONS = [
     "oracle/ref_rhumb.hpp (float128 Gauss-Legendre quadrature of d psi, d m and Q d psi over the SAME singularity-graded panels, closed-form "
     "psi as cross-check on every call, Newton inversion of the meridian distance) is the true rhumb line; each run re-validates it against "
